@@ -129,8 +129,8 @@ _SPECIAL = re.compile(r"[\^/.0-9 ()]")
 
 def budget(tier):
     if tier == "quick":
-        return {"examples": 6000, "shards": 16}
-    return {"examples": 400000, "shards": 16}
+        return {"examples": 10000, "shards": 16}
+    return {"examples": 250000, "shards": 16}
 
 
 # ---------------------------------------------------------------- static tables
